@@ -15,6 +15,10 @@ def epochSender? : String → Option Nat
   | "alice" => some 1
   | "bob" => some 2
   | "mallory" => some 3
+  -- the hook contracts themselves as senders
+  | "hook0" => some 10
+  | "hook1" => some 11
+  | "hook2" => some 12
   | _ => none
 
 def showHooks (hs : List Nat) : String :=
